@@ -98,6 +98,16 @@ class DevInterp(Interp):
     return self._reduce_coll(e, i, lambda a, b: np.minimum(a, b) if not is_sym(a) and not is_sym(b) and np.asarray(a).dtype != object else self.D.s_min(a, b))
 
 
+def fp_dev_interp(ftz=False):
+  from .fpinterp import FPInterp
+
+  class FPDevInterp(DevInterp, FPInterp):
+    def __init__(self, ctx, group, d, axis_name):
+      FPInterp.__init__(self, ctx, ftz=ftz)
+      self.g, self.dev, self.axis_name, self.k = group, d, axis_name, 0
+  return FPDevInterp
+
+
 def eval_spmd(jaxpr, consts, per_device_args, D, axis_name='batch', ctx_factory=None, interp_cls=DevInterp):
   """evaluate closed jaxpr on D devices; per_device_args[d] = list of input arrays.
   Returns (outs[d], interps[d])."""
